@@ -131,6 +131,7 @@ def run(ctx):
     probs = ctx.translate({"GenRegex"})
     ctx.gate()
     props_ok, failing, log = ctx.props()
+    ctx.findings(["Findings/C10_KF1.v"])
     # the runner needs Gen/Lib/Spec only; build them even when a proof broke
     ctx.build(["Lib/RegexDec.vo", "Gen/GenRegex.vo", "Spec/Grammar.vo"])
     runner = ctx.runner("regex", "ExtRegex.v")
